@@ -60,6 +60,9 @@ func inputRef(r Ref, j int) obsRef {
 	if r.Pre {
 		return obsRef{preVersion(j), PreChangeset, PreLat, PreLon}
 	}
+	if r.Loc {
+		return obsRef{0, 0, PreLat, PreLon}
+	}
 	return obsRef{}
 }
 
@@ -619,17 +622,34 @@ func (c *checker) timeTravel(r *gen.R) {
 				base[j] = b
 			}
 		}
+		upsBefore := eq.Dump(ups)
 		for _, t := range ts {
 			c.st.Times++
 			var after []obsRef
 			var afterOri []int
 			var err error
 			if h.Way {
-				w := eq.Clone(c.run.Ways[i])
+				var w *osm.Way
+				if userStyle := c.st.Times%2 == 0; userStyle {
+					// the way a caller answers "state at t": a value copy with its own child list; the
+					// update list is shared with the annotated parent
+					cp := *c.run.Ways[i]
+					cp.Nodes = append(osm.WayNodes(nil), cp.Nodes...)
+					w = &cp
+				} else {
+					w = eq.Clone(c.run.Ways[i])
+				}
 				err = w.ApplyUpdatesUpTo(c.h.At(t))
 				after = obsOfWay(w)
 			} else {
-				rl := eq.Clone(c.run.Relations[i])
+				var rl *osm.Relation
+				if userStyle := c.st.Times%2 == 0; userStyle {
+					cp := *c.run.Relations[i]
+					cp.Members = append(osm.Members(nil), cp.Members...)
+					rl = &cp
+				} else {
+					rl = eq.Clone(c.run.Relations[i])
+				}
 				err = rl.ApplyUpdatesUpTo(c.h.At(t))
 				after = obsOfRel(rl)
 				for _, mb := range rl.Members {
@@ -687,6 +707,13 @@ func (c *checker) timeTravel(r *gen.R) {
 			if bad {
 				break
 			}
+		}
+		// queries on copies must leave the annotated parent's own update list as it was, or the
+		// next query against the same annotated parent sees another list
+		if _, now := c.obs(i); eq.Dump(now) != upsBefore {
+			c.st.Times++
+			c.add("updates-clobbered-by-query", "shared-update-list", "parent version %d: after ApplyUpdatesUpTo on value copies (own child list, shared update list) the annotated parent's update list changed: %s; now: %s",
+				p.Version, eq.Diff(upsBefore, eq.Dump(now)), UpdatesText(now))
 		}
 	}
 }
